@@ -428,7 +428,7 @@ func c14R3(c *Ctx) {
 			cnt[k]++
 			key := fmt.Sprintf("annotate:%s#%d", k, cnt[k])
 			_, inRun := run[fn]
-			c.verdict(c14AnnotationWriters[c.fnName(fn)] && !inRun, rule, key, c.instrPos(st), "written by a tabled prepare/parse function", fmt.Sprintf("%s stores %s outside the tabled prepare functions (in run path: %v)", c.fnName(fn), fieldAddrVar(fa).Name(), inRun))
+			c.verdict(c.tabledB(c14AnnotationWriters, fn) && !inRun, rule, key, c.instrPos(st), "written by a tabled prepare/parse function", fmt.Sprintf("%s stores %s outside the tabled prepare functions (in run path: %v)", c.fnName(fn), fieldAddrVar(fa).Name(), inRun))
 		})
 	}
 	c.minCount(rule, "annotation stores", n, 6)
